@@ -82,6 +82,7 @@ type Knobs struct {
 	PSideKey        int  // a constructor body provides, while it runs, a constructor for a fresh key that later operations may consume
 	PSide           int  // a constructor / decorator body calls String, Visualize, Scope, Provide or Decorate (of an unrelated key) on the container
 	PReenter        int  // C02: probability that a constructor body calls back into the container
+	PReenterDeco    int  // C02: probability that a decorator body calls Invoke (for its own key or others)
 	PEmbedPos       int  // the embedded dig.In / dig.Out of a generated object is not its first field
 	PNamedSlice     int  // a group parameter / slice-typed group result is declared with a named slice type
 	PZeroRes        int  // a single result / group member is returned as the zero value
@@ -587,6 +588,26 @@ func (g *gen) genProvide(s int) Op {
 		// a value group without a name would share its key with the plain
 		// unnamed value of the element type
 		f := g.newFn()
+		switch g.pick(3, "egkind") {
+		case 0:
+			// a result that is declared named *and* grouped (tags of one
+			// result-object field): named, unnamed and grouped values are
+			// distinct keys, one result cannot be two of them
+			r := Result{T: g.pickStr(g.k.Types, "ngt"), Name: g.pickStr(g.k.Names, "ngn"), Group: g.pickStr(g.k.Groups, "ngg")}
+			if g.pct(60, "ngflat") {
+				r.Slice, r.Flatten, r.N = true, true, 1+g.pick(2, "ngnn")
+			}
+			obj := []Result{r}
+			if g.pct(40, "nggood") {
+				obj = append(obj, Result{T: g.pickStr(g.k.Types, "nggt")})
+			}
+			f.R = []Result{{IsObj: true, Obj: obj}}
+			return Op{K: OpProvide, S: s, F: f}
+		case 1:
+			// the same through options
+			f.R = []Result{{T: g.pickStr(g.k.Types, "ngot")}}
+			return Op{K: OpProvide, S: s, F: f, O: &Opts{Name: g.pickStr(g.k.Names, "ngon"), Group: g.pickStr(g.k.Groups, "ngog")}}
+		}
 		f.R = []Result{{T: g.pickStr(g.k.Types, "egt"), Slice: true, N: 1 + g.pick(2, "egn")}}
 		return Op{K: OpProvide, S: s, F: f, O: &Opts{Group: g.pickStr([]string{",flatten", ",flatten,flatten"}, "egv")}}
 	}
@@ -1030,6 +1051,16 @@ func (g *gen) genDecorate(s int) (Op, bool) {
 	f.R = g.encodeResults(rl, false)
 	g.errAndVariadic(f)
 	g.faults(f)
+	if g.pct(g.k.PReenterDeco, "reenterdeco") {
+		rs := g.pickScope("drs")
+		var rl2 []pleaf
+		if g.pct(40, "dreown") && rl[0].key.Group == "" {
+			rl2 = append(rl2, pleaf{key: rl[0].key})
+		} else {
+			rl2 = g.drawParamLeaves(rs, 1+g.pick(2, "drn"), 95, true)
+		}
+		f.Reenter = &Reenter{S: rs, P: g.encodeParams(rl2)}
+	}
 	if g.pct(g.k.PSide, "side") {
 		f.Side = g.pickStr([]string{"string", "visualize", "scope", "provide", "decorate"}, "sidek")
 		f.SideS = g.pickScope("sides")
